@@ -298,16 +298,54 @@ def version_arm_table(f, want_adt=H + "Version"):
 def c15c(chk):
     f = chk.fn(H + "Version::from_header_bytes")
     if f is not None:
-        # switch on bytes[0]: value k -> Version::Vk
+        # the major byte (bytes[0]) selects the version: a multi-way switch on it, or a chain of `byte == k` tests
+        def is_major(op_or_place):
+            pl = op_or_place if isinstance(op_or_place, tuple) else op_place(op_or_place)
+            for _ in range(6):
+                if pl is None:
+                    return False
+                l, proj = pl
+                if l == 1:
+                    idx = [e for e in proj if e[0] in ("constindex", "index")]
+                    if len(idx) == 1 and idx[0][0] == "constindex":
+                        return idx[0][1] == 0 and not idx[0][3]
+                    if len(idx) == 1:
+                        c = an.const_of(f, {"k": "copy", "place": {"l": idx[0][1], "p": []}})
+                        return c is not None and c.get("val") == 0
+                    return False
+                if proj:
+                    return False
+                d = f.single_def(l)
+                if not (d and d[0] == "assign" and d[3]["k"] == "use"):
+                    return False
+                pl = op_place(d[3]["op"])
+            return False
         tab = {}
-        for sb, st in f.switches():
-            for val, tgt in [(a[0], a[1]) for a in st["arms"]]:
-                for b in [tgt] + sorted(an.arm_region(f, sb, tgt)):
-                    for x in f.stmts(b):
-                        if x["k"] == "assign" and x["rv"]["k"] == "aggregate" and x["rv"].get("adt") == H + "Version":
-                            tab[val] = x["rv"]["variant"]
-            subj = an.switch_subject(f, sb)
-            idx0 = subj["place"] is not None and any(e[0] in ("constindex", "index") or (e[0] == "field") for e in subj["place"][1]) or True
+        subject_ok = True
+        for b, i, p_, rv, x in f.assigns():
+            if not (rv["k"] == "aggregate" and rv.get("adt") == H + "Version"):
+                continue
+            vals = set()
+            for sb, st in f.switches():
+                subj = an.switch_subject(f, sb)
+                if subj["kind"] != "value":
+                    continue
+                dd = f.single_def(subj["root"]) if subj["root"] is not None else None
+                if dd and dd[0] == "assign" and dd[3]["k"] == "binop" and dd[3]["op"] == "Eq":
+                    # `byte == k` on the true edge
+                    for x_, y_ in ((dd[3]["l"], dd[3]["r"]), (dd[3]["r"], dd[3]["l"])):
+                        c = an.const_of(f, y_)
+                        if c is not None and isinstance(c.get("val"), int) and is_major(x_) and an.dominated_by_edge(f, sb, st["otherwise"], b):
+                            vals.add(c["val"])
+                else:
+                    for val, tgt in [(a_[0], a_[1]) for a_ in st["arms"]]:
+                        if an.dominated_by_edge(f, sb, tgt, b) and tgt != st["otherwise"]:
+                            if is_major(subj["place"]) or (subj["root"] is not None and is_major((subj["root"], ()))):
+                                vals.add(val)
+                            else:
+                                subject_ok = False
+            for v in vals:
+                tab[v] = rv["variant"]
         chk.ob("C15.c", "from_header_bytes", tab == {1: "V1", 2: "V2", 3: "V3"}, f.loc(), "major version byte k selects Version::Vk (found %s)" % tab)
     f = chk.fn(H + "Version::to_header_bytes")
     if f is not None:
@@ -675,8 +713,21 @@ def c07c(chk):
     # shape separator
     wsep = None
     if hf is not None:
-        for b, t in an.calls(hf, "alloc::slice::<impl [T]>::join"):
-            wsep = an.const_str_of(hf, t["args"][1])
+        seps = set()
+        for g_ in [hf] + prog.closures_of(hf.path):
+            for b, t in g_.calls():
+                nm = callee_name(t["callee"]).split("::")[-1]
+                full = t["callee"].get("path") or ""
+                if full == "alloc::slice::<impl [T]>::join" or (nm in ("push_str", "write_str") and len(t["args"]) == 2):
+                    v = an.const_str_of(g_, t["args"][1])
+                    if v is not None:
+                        seps.add(v)
+                elif nm in ("push", "write_char") and len(t["args"]) == 2 and ("String" in full or "fmt::Write" in full or "Formatter" in full):
+                    c = an.const_of(g_, t["args"][1])
+                    if c is not None and isinstance(c.get("val"), str):
+                        seps.add(c["val"])
+        # the separator between the axis lengths: join("/"), or push('/') / push_str("/") / write_char('/') between elements of a loop
+        wsep = seps.pop() if len(seps) == 1 else (None if not seps else "ambiguous:%s" % sorted(seps))
     fs = chk.fn(TEXT_HDR_FROM_STR)
     rsep = None
     if fs is not None:
@@ -1141,7 +1192,31 @@ def c16e(chk):
             inside = [it for it in its if it.body is g and cb in it.blocks]
             it = min(inside, key=lambda x: len(x.blocks)) if inside else None
             oc = outcomes_through_wrappers(g, cb)
-            if it is None or oc is None:
+
+            def returned_through_result_combinators(g, cb):
+                """the call's Result is the closure's return value, possibly through Result::map / map_err (which keep an Err an Err)"""
+                d = an.call_dest_local(g.term(cb))
+                for _ in range(4):
+                    if d == 0:
+                        return True
+                    nxt = [(b2, t2) for b2, t2 in g.calls() if t2["args"] and op_local(t2["args"][0]) is not None and g.copy_root(op_local(t2["args"][0])) == d
+                           and (t2["callee"].get("path") or "") in ("core::result::Result::<T, E>::map", "core::result::Result::<T, E>::map_err")]
+                    if len(nxt) != 1:
+                        return False
+                    d = an.call_dest_local(nxt[0][1])
+                return d == 0
+            if it is not None and oc is None and it.kind == "closure" and it.consumer == "map" and returned_through_result_combinators(g, cb):
+                coll = [(b_, t_) for b_, t_ in ws.calls() if callee_is(t_["callee"], N.COLLECT)]
+                col_ok = False
+                if len(coll) == 1:
+                    ch = IT.receiver_chain(ws, coll[0][1]["args"][0])
+                    through = IT.chain_get(ch, "map") is it.term and IT.chain_names(ch) == ["map", "iter"]
+                    oc2 = an.option_outcomes(ws, coll[0][0])
+                    col_ok = through and oc2 is not None and an.dominated_by_edge(ws, oc2[0], oc2[1], wb) and \
+                        "core::result::Result<alloc::vec::Vec<" in " ".join(coll[0][1]["callee"].get("args", []))
+                ok = col_ok
+                why = "%s: the closure returns calculate(..) through Result::map / map_err (an Err stays an Err), collected as Result<Vec<_>, _> whose success edge dominates the write=%s" % (it.describe(), col_ok)
+            elif it is None or oc is None:
                 why = "calculate is not inside a recognised per-statistic iteration, or its outcome is not told apart"
             elif it.kind == "loop":
                 sb, good, bad = oc
